@@ -28,6 +28,9 @@ pub fn dhcp_case(i: u64, r: &mut Rng, c: &Ctx) -> CaseOut {
 pub fn dns_case(i: u64, r: &mut Rng, c: &Ctx) -> CaseOut {
     scen::scen_dns(i, r, c, Focus::Everything)
 }
+pub fn anyip_case(i: u64, r: &mut Rng, c: &Ctx) -> CaseOut {
+    scen::scen_anyip(i, r, c, Focus::Everything)
+}
 pub fn mcast_case(i: u64, r: &mut Rng, c: &Ctx) -> CaseOut {
     scen::scen_mcast(i, r, c, Focus::Everything)
 }
@@ -88,6 +91,7 @@ pub fn monitor() -> super::Monitor {
             super::Part { name: "dhcp", cases: |c| c.n(2000, 30_000), f: dhcp_case },
             super::Part { name: "dns", cases: |c| c.n(2000, 40_000), f: dns_case },
             super::Part { name: "mcast", cases: |c| c.n(3000, 60_000), f: mcast_case },
+            super::Part { name: "anyip", cases: |c| c.n(3000, 60_000), f: anyip_case },
         ],
         post: None,
     }
